@@ -187,7 +187,8 @@ def fmt_val(v):
 class RealWorld(object):
     """One factory, its protocols, transports, Deferreds and the virtual clock."""
 
-    def __init__(self, profile):
+    def __init__(self, profile, frames=False):
+        self.frames = frames      # log every packet handed to _processPacket as `pkt <p> <hex>` (C03)
         CLOCK.reset()
         JITTER.value = 0.0
         self.out = []
@@ -315,6 +316,12 @@ class RealWorld(object):
         p = self.factory.buildProtocol(addr)
         i = len(self.protos)
         self.protos.append(p)
+        if self.frames:
+            orig = p._processPacket
+            def wrapped(packet, orig=orig, i=i):
+                self.obs('pkt %d %s' % (i, hexs(packet)))
+                return orig(packet)
+            p._processPacket = wrapped
         p.makeConnection(LogTransport(self, i))
 
     def op_sethandlers(self, p, mask):
@@ -397,16 +404,18 @@ class RealWorld(object):
         return [dc for dc in pend if dc.getTime() == m]
 
 
-def run_scenario(lines):
+def run_scenario(lines, frames=False, keep_world=False):
     """lines[0] must be 'factory <profile>'. Returns list of (opline, [obs lines])."""
     assert lines[0].startswith('factory ')
-    w = RealWorld(int(lines[0].split()[1]))
+    w = RealWorld(int(lines[0].split()[1]), frames=frames)
     res = [(lines[0], [])]
     for ln in lines[1:]:
         ln = ln.strip()
         if not ln or ln.startswith('#'):
             continue
         res.append((ln, w.step(ln)))
+    if keep_world:
+        return res, w
     return res
 
 
